@@ -40,6 +40,31 @@ impl Monitor for C05 {
                     st.class("fee-within-1-of-nonzero-minimum-accepted");
                 }
             }
+            // the minimum fee is a function of the transaction as submitted: the same transaction with padded
+            // signatures (same hash_nosigs, larger encoding) must be judged by its own weight, whatever was
+            // weighed before in this process
+            if let Some(tx) = ob.txs.first() {
+                let mut padded = tx.clone();
+                padded.sigs.push(vec![0u8; 64].into());
+                padded.sigs.push(vec![0u8; 200].into());
+                let minp = refstf::min_fee(&padded, ob.pre.fee_mult);
+                let mut scratch = ob.pre_state.clone();
+                let pool = _w.pool.clone();
+                if let Ok(Ok(())) = crate::util::catch(|| pool.install(|| scratch.apply_tx(&padded))) {
+                    if padded.fee.0 < minp {
+                        viol!(
+                            "padded-spelling-accepted-below-its-minimum-fee",
+                            "a transaction paying {} is accepted with 264 extra signature bytes although that spelling's minimum fee is {} (multiplier {})",
+                            padded.fee.0,
+                            minp,
+                            ob.pre.fee_mult
+                        );
+                    }
+                    st.class("padded-spelling-accepted");
+                } else if padded.fee.0 < minp {
+                    st.class("padded-spelling-rejected-below-minimum");
+                }
+            }
             let want_pool = ob.pre.fee_pool.saturating_add(sum_min);
             let want_tips = ob.pre.tips.saturating_add(sum_tip);
             if ob.post.fee_pool != want_pool {
@@ -204,6 +229,20 @@ pub fn check_shape_with(s: &Shape, st: &mut Stats, shard: usize, panic_is_violat
     };
     tx.fee = CoinValue(target);
     let min = refstf::min_fee(&tx, mult); // re-evaluate with the final encoding
+    // a heavier spelling of the same transaction (same hash_nosigs) is tried first on a scratch copy; what it
+    // does there must not influence the judgement of the real one
+    {
+        let mut padded = tx.clone();
+        padded.sigs.push(vec![7u8; 300].into());
+        let minp = refstf::min_fee(&padded, mult);
+        let mut scratch = w.cur.clone();
+        let pool = w.pool.clone();
+        if let Ok(Ok(())) = crate::util::catch(|| pool.install(|| scratch.apply_tx(&padded))) {
+            if padded.fee.0 < minp {
+                viol!("padded-spelling-accepted-below-its-minimum-fee", "shape {:?}: padded spelling with fee {} accepted, its minimum is {}", s, padded.fee.0, minp);
+            }
+        }
+    }
     let pre = w.snap();
     let r = w.apply_batch(std::slice::from_ref(&tx));
     let post = w.snap();
@@ -254,11 +293,11 @@ pub fn run(ctx: &Ctx) -> (Outcome, String, Option<bool>) {
         p.max_steps = 30;
         p.max_txs = 10;
     }
-    let mut out = super::hist::run_histories(ctx, "histories", p, ctx.scale(300, 5000), C05::default);
+    let mut out = super::hist::run_histories(ctx, "histories", p, ctx.scale(300, 4000), C05::default);
     let o = run_sharded(
         ctx,
         "transaction-shapes",
-        ctx.scale(800, 15000),
+        ctx.scale(700, 9000),
         || {
             (
                 prop_oneof![Just(0u8), Just(1), Just(2), Just(254), Just(255), any::<u8>()],
